@@ -230,6 +230,28 @@ def run(ctx):
             ctx.violation('a signature object carrying key A accepts a signature made by B after B was tried on it',
                           {'op': 'object-history foreign', 'observed': [first, then], 'expected': [False, False]})
 
+    # ---- ... and a history of DIGESTS: an object that remembers a digest (from sign(), from an earlier verify call) is checked against the
+    # digest that is PASSED, each time - right digest, a neighbour, the right one again; objects made by sign() and fresh objects made from (r, s)
+    for trial in range(6 if not T else 30):
+        zz = rng.getrandbits(256)
+        made = sign(zh(zz), ka)
+        for src, obj in (('sign()', made), ('parsed', Signature(made.r, made.s))):
+            zs = [rng.choice([zz, (zz + 1) % 2 ** 256, zz ^ (1 << 255), zz]) for _ in range(4)] + [zz]
+            if src == 'parsed':
+                zs = [(zz + 1) % 2 ** 256] + zs            # (the first digest such an object sees is a wrong one)
+            got, want = [], []
+            for zx in zs:
+                try:
+                    got.append(bool(obj.verify(zh(zx), ka)))
+                except Exception as e:
+                    got.append('raise:' + type(e).__name__)
+                want.append(run_driver(['ecdsa_verify_rs %s %s %d %d' % (ka.public_byte.hex(), zh(zx), made.r, made.s)])[0].split(' | ')[0].startswith('true'))
+            ctx.evals += 1
+            ctx.count('signature-object-history:digests:' + src)
+            if got != want:
+                ctx.violation('a signature object verified against a sequence of digests does not answer like the standard verifier for the digest passed',
+                              {'op': 'object-history digests', 'object_from': src, 'digests': ['signed' if zx == zz else 'other' for zx in zs], 'observed': got, 'expected': want})
+
     # ---- one message, one signature: the digest written as bytes, as lower-case or as upper-case hexadecimal text is the same message;
     # the public key given as object, bytes or hexadecimal text is the same key
     for _ in range(40 if T else 12):
